@@ -98,10 +98,14 @@ func Load(o Options) (*Program, error) {
 	}
 	// predicate helpers written back at their call sites (see inline.go); a rewrite that does not type-check is dropped
 	InlineLog = nil
+	InlinedSetters = map[string]bool{}
 	if os.Getenv("MASTCHECK_NOINLINE") == "" && o.Patterns == nil {
 		cur := o.Overlay
-		for pass := 0; pass < 3; pass++ {
+		for pass := 0; pass < 4; pass++ {
 			ov, log := inlineRewrite(pkgs, cur)
+			if ov == nil {
+				ov, log = setterRewrite(pkgs, cur)
+			}
 			if ov == nil {
 				break
 			}
